@@ -197,7 +197,27 @@ def sm_eval(e, env):
         if base == "exp" and len(args) == 1:
             a = sm_eval(args[0], env)
             return SM("+", a.m)
+        # a straight-line helper of the library (a fit formula extracted into a function): evaluated with the arguments'
+        # abstract values bound to its parameters
+        callee = SM_HELPERS.get(e.get("fn"))
+        if callee is not None and len(callee["params"]) == len(args) and env.get("__depth__", 0) < 3:
+            sub = {("l", p["id"]): sm_eval(a, env) for p, a in zip(callee["params"], args) if "id" in p}
+            sub["__depth__"] = env.get("__depth__", 0) + 1
+            for st in callee["body"]["s"]:
+                if st.get("k") == "Decl":
+                    for d in st["d"]:
+                        if d.get("init") is not None:
+                            sub[("l", d["id"])] = sm_eval(d["init"], sub)
+                elif st.get("k") == "Return" and st.get("x") is not None:
+                    return sm_eval(st["x"], sub)
+                elif st.get("k") == "Null":
+                    continue
+                else:
+                    return SM("?", "?")
     return SM("?", "?")
+
+
+SM_HELPERS = {}
 
 
 # ------------------------------------------------------------------------------ the rules
@@ -325,6 +345,11 @@ def run(chk, prog):
     chk.floor("Q3", n3, 1)
     sw, arms, default = T.switch_arms(rf)
     tpar = [p for p in rf["params"] if p["t"].replace("const ", "").strip() == "double"][0]
+    SM_HELPERS.clear()
+    for d_ in ru.decls:
+        if d_["kind"] == "function" and d_.get("body") is not None and d_ is not rf and d_["body"].get("k") == "Block" and \
+                not any(x.get("k") in ("If", "For", "While", "Do", "Switch") for x in C.walk_stmt(d_["body"])):
+            SM_HELPERS.setdefault(d_["full"].split("(")[0], d_)
     n4 = 0
     for ion_name in ("ION_H_n", "ION_He_n"):
         arm = arms.get(ions.get(ion_name))
